@@ -93,10 +93,14 @@ func (l *Log) Writes(id string) []Event {
 // the Write returns an error, short is the byte count returned with it.
 type FailFn func(attempt int, p []byte) (fail bool, n int)
 
+// ErrFn (optional) chooses the error value a failing attempt returns (default ErrInjected).
+type ErrFn func(attempt int) error
+
 type core struct {
 	ID       string
 	L        *Log
 	Fail     FailFn
+	Err      ErrFn
 	DelayUS  int  // sleep inside Write (widen the window in which the buffer is in use)
 	Yield    bool // runtime.Gosched inside Write
 	attempts int32
@@ -127,16 +131,22 @@ func (c *core) write(p []byte) (int, error) {
 		e.Gid = c.Gtag()
 	}
 	n, fail := len(p), false
+	var ferr error = ErrInjected
 	if c.Fail != nil {
 		if f, nn := c.Fail(att, p); f {
 			fail, n = true, nn
+			if c.Err != nil {
+				if e2 := c.Err(att); e2 != nil {
+					ferr = e2
+				}
+			}
 		}
 	}
 	e.Failed = fail
 	c.L.add(e)
 	atomic.AddInt32(&c.L.inflight, -1)
 	if fail {
-		return n, ErrInjected
+		return n, ferr
 	}
 	return n, nil
 }
